@@ -69,6 +69,36 @@ def gen(rng, tier):
             if first[k] < 2 or (S.dirs(d)[k][1][S.dirs(d)[k][2]] - S.dirs(d)[k][1][S.dirs(d)[k][0]]) / first[k] >= 1:
                 first = None
         out.append(Case('grid', line, dict(shape=d, sizes=sizes, first=first)))
+    # interior knots of FULL multiplicity (p + 1: the shape may jump there; the value at the knot is the
+    # right-hand one, only the domain end takes the left limit) with samples landing exactly on them
+    for _ in range(14 if tier == 'quick' else 150):
+        p_ = rng.randint(1, 3)
+        x = rng.choice([F(1, 2), F(1, 4), F(3, 4)])
+        kv = [F(0)] * (p_ + 1) + [x] * (p_ + 1) + [F(1)] * (p_ + 1)
+        n_ = len(kv) - p_ - 1
+        rat = rng.random() < .4
+        if rng.random() < .6:
+            P = G.points(rng, n_, 2)
+            if rat:
+                P = G.homogeneous(P, G.weights(rng, n_))
+            d = dict(kind='curve', rat=rat, p=p_, kv=kv, n=n_, P=P, dim=2)
+            sizes = [rng.choice([5, 9])]
+        else:
+            pv = rng.choice([q_ for q_ in (1, 2, 3) if q_ != p_])
+            kvv, sv = G.knots(rng, pv, max_interior=1, allow_range=False)
+            if sv == n_:
+                kvv = kvv[:pv + 1] + [F(1, 3)] + kvv[pv + 1:]; sv += 1
+            P = G.points(rng, n_ * sv, 3)
+            if rat:
+                P = G.homogeneous(P, G.weights(rng, n_ * sv))
+            d = dict(kind='surface', rat=rat, pu=p_, pv=pv, kvu=kv, kvv=kvv, su=n_, sv=sv, P=P, dim=3)
+            sizes = [rng.choice([5, 9]), rng.randint(2, 4)]
+        deltas = [F(1, sz) for sz in sizes]
+        line = "%s %s %s" % (GRID[d['kind']], S.args(d), " ".join(fr(x_) for x_ in deltas))
+        out.append(Case('grid', line, dict(shape=d, sizes=sizes, first=None), tags=('full-multiplicity',)))
+        ps = [x] + [rng.choice([F(0), F(1, 3), F(1)]) for _ in S.dirs(d)[1:]]
+        out.append(Case('single', "%s %s %s" % (OPS[d['kind']], S.args(d), " ".join(fr(x_) for x_ in ps)), dict(shape=d, params=ps),
+                        tags=('full-multiplicity',)))
     # floating point: the requested sample size is honoured for every n (rounding of 1/delta)
     out.append(Case('float-sizes', None, dict(lo=2, hi=130 if tier == 'quick' else 400)))
     return out
